@@ -6,6 +6,15 @@ CHECKS = {
              note="Trusted: the instrumenter's rewrite of go/send/recv/close, the channel model of verifrt (follows cap(ch)), the step horizon as termination oracle. Inputs outside the alphabet/bound are not covered.",
              technique="bounded exhaustive input enumeration on the real parser under a controlled scheduler (explicit-state, stateless)", ref="DESIGN.md §4 C07"),
 }
+CHECKS["C01"]=dict(text="Every expression tree up to depth 2 (quick) / 3 (thorough) over the full operator and scalar-function table and a leaf alphabet that contains every special value class (NaN, +-Inf, -0, >=1e21, <1e-6, >2^53, empty/blank/non-ASCII/number-like strings, absent nodes, leaf-lists) is compiled and run by the real engine on a typed mock data tree and compared, native type and all three result accessors, with an XPath 1.0 reference evaluator written from the REC. Inner operands are class representatives on which the implementation is already known to agree, so each disagreement is attributed to the outermost application.",
+  note="Trusted: the reference evaluator (ref/xp10), the value-class quotient used above depth 1, the mock data tree's typing of leaf values. Values outside the leaf alphabet are not covered.",
+  technique="bounded exhaustive enumeration of expression trees against a reference model (explicit-state, level-by-level with class-representative quotient)", ref="DESIGN.md §4 C01")
+CHECKS["C04"]=dict(text="Every token sequence up to the bound over a 61-token (expr) / 19-token (leafref) alphabet in two renderings, and every single-token mutation of a corpus and of all bounded path-arg derivations, is given to the real compilers and to a three-valued reference (XPath 1.0 tokenizer/parser + core-subset classifier; RFC 6020 path-arg recogniser); accept/reject verdicts must agree wherever the reference is not UNSPECIFIED.",
+  note="Trusted: the reference recognisers; UNSPECIFIED region (valid XPath 1.0 outside the core subset) is skipped and counted. Prefix map knows only 'p'.",
+  technique="bounded exhaustive enumeration of token sequences against reference recognisers", ref="DESIGN.md §4 C04")
+CHECKS["C05"]=dict(text="Every byte string up to length 4 (quick) / 5-6 (thorough) over a 25-byte alphabet and every prefix / single-byte substitution of a corpus is given to all three machine constructors under a step horizon; every machine obtained is run; for every corpus expression every position (and pair of positions) at which a data-tree callback can fail is enumerated with unique injected errors. Checked: termination, no panic, machine xor error, error quotes the expression with a marker inside it, value xor error, the first injected error is the one reported by GetError and every accessor.",
+  note="Trusted: step horizon as termination oracle; the mock xpath.Entry. Schema-side NewCtxFromMach contexts are not driven.",
+  technique="bounded exhaustive input enumeration + exhaustive fault-position enumeration on the real code", ref="DESIGN.md §4 C05")
 NOT_YET = {}
 props=[json.loads(l) for l in open('/verif/properties.jsonl')]
 checks=[]; na=[]
@@ -41,7 +50,7 @@ m={
  ],
  "checks":checks,
  "not_applicable":na,
- "notes":"fix: commits in /repo: 48099e3 (lexString hang), 95a4bd8 (lexer goroutine leak). Known findings: known_findings.jsonl.",
+ "notes":"fix: commits in /repo are listed as fixed: entries in known_findings.jsonl together with the open known findings.",
 }
 json.dump(m,open('/verif/MANIFEST.json','w'),indent=1)
 print(len(checks),"checks,",len(na),"not applicable")
